@@ -344,11 +344,21 @@ def plan(tier, seed):
              ("script", dict(skeleton="T5", args={"type1": "on-premise", "type2": "serverless", "fixed1": 40}, script=[dict(k="fixed", obj="srv", val="sym"), dict(k="fixed", obj="srv", val="sym")])),
              ("script", dict(skeleton="T1", args={"fixed": None}, script=[dict(k="fixed", obj="st", val="sym"), dict(k="fixed", obj="st", val="sym")])),
              ("script", dict(skeleton="T1", script=[dict(k="fixed", obj="st", val="sym"), dict(k="fixed", obj="st", val=None)]))]
+    # the "everything at once" system: numeric edits on objects of each kind, a link edit and a list edit
+    tx = [("script", dict(skeleton="TX", script=[e])) for e in (
+        num("job3", "data_stored"), num("step1", "user_time_spent"), num("dev2", "power"), num("de", "average_carbon_intensity"),
+        num("st", "data_storage_duration"), num("net2", "bandwidth_energy_intensity"), num("srv2", "power_usage_effectiveness"),
+        num("job", "request_duration"), num("st", "base_storage_need"))]
+    tx += [("script", dict(skeleton="TX", script=[L_("up2", "network", "net2"), num("net2", "bandwidth_energy_intensity")])),
+           ("script", dict(skeleton="TX", script=[L_("up3", "country", "fr"), L_("up3", "country", "my")])),
+           ("script", dict(skeleton="TX", script=[dict(k="list_assign", obj="up", attr="devices", names=["dev2"]), num("dev2", "lifespan")])),
+           ("script", dict(skeleton="TX", script=[L_("job3", "server", "srv2"), num("job3", "ram_needed")]))]
     if tier == "quick":
         rnd.shuffle(shared)
+        p += tx
         p += shared[:14] + links9 + follow9 + histories + links[:8] + follow[:3] + groups + fixed
     else:
-        p += shared + links9 + follow9 + histories + links + follow + groups + fixed
+        p += tx + shared + links9 + follow9 + histories + links + follow + groups + fixed
         # all ordered pairs of single numeric edits on T1 touching different objects: seeded sample of 60
         singles = [e for e, inv in single_edits("T1") if e["k"] == "num"]
         pairs = [(a, b) for a in singles for b in singles if a["obj"] != b["obj"]]
